@@ -5,7 +5,8 @@ import PfModel.Model.ErrorsStore
 import PfModel.Model.ErrorsKinds
 import PfModel.Model.ErrorsProto
 import PfModel.Model.ErrorsFile
-/-! Driver for C13 (`call.fail`, `map.fail`): the failure models of `PfModel/Model/Errors.lean`. -/
+import PfModel.Model.ErrorsOwed
+/-! Driver for C13 (`call.fail`, `map.fail`, `map.owed`): the failure models of `PfModel/Model/Errors.lean`. -/
 open Lean PF PF.Drv PF.Errors PF.Errors.File
 
 /-- keyword arguments compared up to order: sort by name, compare the printed JSON -/
@@ -253,6 +254,26 @@ def handle (m : String) (a : Json) : R Json := do
                     ("pipelineSnap", jOpt putSnap snapP), ("funcSnap", jOpt putSnap (funcSnapshot fails r.noteFunc log)), ("spec", spec)] ++
                    -- `map_async`: what `await` hands to the caller (`awaitExn`, `C13_await_kinds`)
                    (if modeS = "async" then [("awaited", putAwaited stopCls r.exn)] else []) ++ putAnnotated baseCls r ++ putRaised fails r boxed)
+  | "map.owed" =>
+    -- the elements the invocations `"completed": [[fname, kw], …]` produced (`owedStore`, `Props/C13Owed.lean`): what "results completed
+    -- before the failure remain loadable" owes when THESE invocations completed (the harness reads them off the implementation's call log)
+    let fs ← listF getMFunc a "funcs"
+    let inputs ← getKw (← fld a "inputs")
+    let internal := (← optF (asList (asPair asStr (asList asNat))) a "internal").getD []
+    let completed ← listF (asPair asStr getKw) a "completed"
+    let keys := completed.map fun (f, kw) => (f, kwKey kw)
+    let done : Task → Bool := fun t => keys.contains (t.f.name, kwKey t.c.args)
+    match Map.validateInputs fs inputs, Map.mapShapes fs inputs (Map.constructInternal fs internal) with
+    | .ok _, .ok (shapes, masks) =>
+      if (Map.generations fs).flatten.length ≠ fs.length then return putMErr (.value "cyclic pipeline") else
+      match Map.runGensWith (Map.runFuncWith Map.opArray fs shapes masks) (Map.generations fs) { inputs := inputs, store := [] } with
+      | .ok (rs, _) =>
+        let owed := owedStore done ((Map.generations fs).flatten.zip rs)
+        return jObj [("owed", putKw (owed.map fun (o, s) => (o, s.toVal))), ("elements", jNat (owed.foldl (fun n (_, s) =>
+          n + (match s with | .array _ _ cells => cells.length | .single _ => 0)) 0))]
+      | .error e => return putMErr e
+    | .error e, _ => return putMErr e
+    | _, .error e => return putMErr e
   | "snap.file" =>
     -- `ErrorSnapshot.save_to_file` / `load_from_file` on a snapshot whose argument values have kinds (`Model/ErrorsFile.lean`, `Props/C13File.lean`)
     let s : SnapFile := { fname := ← strF a "fname", exn := ← getExn (← fld a "exn"), args := ← listF getPV a "args",
